@@ -71,6 +71,19 @@ class Case(object):
 _TOK = re.compile(r"[ ,;]")
 
 
+def fbits(x):
+    """protocol token of a double: its bit pattern, `f:<decimal>` (exact transport)."""
+    import struct
+    return "f:%d" % struct.unpack("<Q", struct.pack("<d", float(x)))[0]
+
+
+def tok_float(t):
+    if t.startswith("f:"):
+        import struct
+        return struct.unpack("<d", struct.pack("<Q", int(t[2:])))[0]
+    return float(t)
+
+
 def answers_equal(expect, got, tol=None):
     if expect == got:
         return True
@@ -83,7 +96,7 @@ def answers_equal(expect, got, tol=None):
         if x == y:
             continue
         try:
-            fx, fy = float(x), float(y)
+            fx, fy = tok_float(x), tok_float(y)
         except ValueError:
             return False
         if fx != fx or fy != fy:          # NaN on exactly one side / both: textual only
